@@ -32,8 +32,25 @@ def pool(package):
     return ["x", "y", "x_0", "x_1", "x_entry", "x_0_entry", "types", "messages", "schema", "detail", package]
 
 
+# identifiers the emitted code itself uses for parameters, locals, template parameters and helpers
+IMPL_NAMES = ["c", "v", "num_in_group", "header", "Byte", "Cursor", "visitor", "size", "other", "value", "T", "last", "res", "std", "sbepp"]
+# slots that live in different scopes and can therefore carry the same name in one schema
+SCOPE_SETS = [["comp_m1", "inner_m", "enum_val", "set_choice", "field", "group_field", "nested_field"], ["comp_m2", "field2"],
+              ["group"], ["nested"], ["data"], ["msg"], ["comp"], ["enum"], ["set"], ["type"], ["inner"]]
+
+
+def impl_name_schemas(tier):
+    k = 0
+    names_ = IMPL_NAMES if tier != "quick" else IMPL_NAMES[:8]
+    for nm in names_:
+        for slots in SCOPE_SETS:
+            k += 1
+            yield "impl-name:%s@%s" % (nm, "+".join(slots)), template({s: nm for s in slots}, "im%d" % k)
+
+
 def clash_schemas(tier):
     """yield (desc, Schema)"""
+    yield from impl_name_schemas(tier)
     k = 0
     slots = SLOTS
     pl = pool("nm")
